@@ -120,6 +120,36 @@ CHECKS = [
         "Does not decide that decoded values equal the arguments passed (needs execution).",
         "note": BASE_NOTE + " Hex widths from format specs are exact modulo the codec's representable range (C04). Constructors whose payload does not abstract (listed in the evidence as undecided) are not covered by R3.",
     },
+    {
+        "id": "C02",
+        "technique": "static analysis: field layout derived by parsing the frame regexes vs constant slices; format-width agreement; field-order and delimiter agreement between writers and readers",
+        "text": "Decides that every reader and writer of frame/log text agrees on where each field is: constant slices of frame text start/end on "
+        "the field boundaries derived from COMMAND_REGEX/MESSAGE_REGEX and cover the field they are used as; the packet-log timestamp width "
+        "computed from the formatter equals the readers' slice constants; Frame.__repr__/Command._from_attrs join fields in the order "
+        "Frame.__init__ reads them with len = payload bytes; the annotation delimiters consumed equal those emitted, comment outermost. "
+        "Does not decide identity for every verb/seqn/address shape (values).",
+        "note": BASE_NOTE,
+    },
+    {
+        "id": "C04",
+        "technique": "static analysis: numeric-idiom lint typed by mypy (truncating float scaling), sentinel-table inverse, bit-layout agreement by constant folding, sibling agreement, range-guard dominance",
+        "text": "Decides the structural clauses of the codec property: encoders scale with a rounding idiom (int(float*k) must mis-encode some grid "
+        "points - IEEE-754), sentinel tables of each encoder/decoder pair are mutual inverses, packed timestamp / datetime / device-id bit and "
+        "column layouts agree between encoder and decoder, the duplicated device-id codecs agree, and every fixed-width hex field is bounded by "
+        "a raising guard, a mask or construction (no silent wrap). Exactness on the whole grid (65,536 words, 2^24 ids) is about values and is "
+        "not decided.",
+        "note": BASE_NOTE,
+    },
+    {
+        "id": "C17",
+        "technique": "static analysis: struct-format agreement computed from the format strings, numeric-idiom rule, constant/regex-bound agreement and shape inclusion for the fragment write",
+        "text": "Decides that pack/unpack agree on byte order, record size (= the decode stride) and field offsets; that setpoints are scaled with a "
+        "rounding idiom and decoded by /100, time-of-day and zone-index codecs are inverse shapes; that a fragment (82 hex digits) equals the "
+        "0404 regex bound and header+fragment fits the 48-byte frame payload, and the fragment-write payload shape is in the W|0404 regex "
+        "language; and that the validator's time/setpoint grids fit the codec's. Identity for all schedules and reassembly under permuted or "
+        "repeated fragments are value/history properties and are not decided.",
+        "note": BASE_NOTE,
+    },
 ]
 
 NOT_APPLICABLE = [
